@@ -357,3 +357,212 @@ func TestVerifC11CLI(t *testing.T) {
 	}
 	r.Sample(map[string]any{"pipe_scenarios": []string{"junk-lines", "dump-then-end-line", "dump-blank-junk", "race-report", "two-dumps", "byte-at-a-time-dump"}, "limit": "30s liveness limit per step, stdin kept open"})
 }
+
+// ---- C11 in process: process() under a scripted reader, monitored at every Read ----
+
+type hookReader struct {
+	chunkReader
+	onRead func(off int)
+}
+
+func (h *hookReader) Read(p []byte) (int, error) {
+	if h.onRead != nil {
+		h.onRead(h.off)
+	}
+	return h.chunkReader.Read(p)
+}
+
+func c11ProcessStreams() (names []string, streams [][]rline.Line) {
+	junk := map[string]gen.Named{}
+	for _, j := range gen.StreamJunk(false) {
+		junk[j.Name] = j
+	}
+	dumps := map[string]gen.Named{}
+	for _, d := range gen.StreamDumps(false) {
+		dumps[d.Name] = d
+	}
+	tail := []rline.Line{{Text: "exit status 2", Kind: rline.OTHER}, {Text: "second trailer line", Kind: rline.OTHER}, {Text: "third", Kind: rline.OTHER}}
+	add := func(name string, parts ...[]rline.Line) {
+		var l []rline.Line
+		for _, p := range parts {
+			l = append(l, p...)
+		}
+		names = append(names, name)
+		streams = append(streams, l)
+	}
+	add("junk dump trailer", junk["panic-line+blank"].Lines, dumps["dump-plain"].Lines, tail)
+	add("dump-ending-in-creator trailer", junk["one-line"].Lines, dumps["dump-ends-in-creator"].Lines, tail)
+	add("race trailer", junk["one-line"].Lines, dumps["race-report"].Lines, tail)
+	add("two dumps", dumps["dump-plain"].Lines, junk["crlf-lines"].Lines, dumps["dump-unavailable"].Lines, tail)
+	add("preamble lookalikes", junk["lone-sep"].Lines, junk["one-line"].Lines, junk["sep+warn"].Lines, tail[:1], dumps["dump-ends-in-elision"].Lines, tail)
+	add("crlf dump then race", dumps["dump-crlf"].Lines, tail[:2], dumps["race-report"].Lines, tail[2:])
+	return
+}
+
+func TestVerifC11Process(t *testing.T) {
+	r := h.Start("C11")
+	defer r.Finish(func(s string) { t.Error(s) })
+	os.Setenv("GOTRACEBACK", "all")
+	if rv := r.ReplayFile(); rv != nil {
+		t.Logf("replay %s: %s", rv.Key, rv.Summary)
+		return
+	}
+	names, streams := c11ProcessStreams()
+	cache := map[string]string{}
+	seq := 0
+	for si, lines := range streams {
+		pred := rline.Predict(lines)
+		var data []byte
+		offsets := []int{0}
+		for _, l := range lines {
+			data = append(data, l.Bytes()...)
+			offsets = append(offsets, len(data))
+		}
+		isPass := make([]bool, len(lines))
+		for _, p := range pred {
+			for _, i := range p.Pass {
+				isPass[i] = true
+			}
+		}
+		// rendering of each dump and the offset at which its terminating line is complete
+		type dumpInfo struct {
+			render string
+			T      int
+		}
+		var dumps []dumpInfo
+		okStream := true
+		for _, p := range pred {
+			if p.Gs == nil {
+				continue
+			}
+			seg := linesBytes(lines, p.Dump)
+			rr, cached := cache[string(seg)]
+			if !cached {
+				o, err, pn := plainProcess(bytes.NewReader(seg))
+				if err != nil || pn != "" {
+					okStream = false
+					break
+				}
+				rr = o
+				cache[string(seg)] = rr
+			}
+			T := len(data) + 1
+			if !p.AtEOF {
+				last := p.Dump[len(p.Dump)-1]
+				if lines[last].Kind == rline.SEP && last == p.Next-1 && p.Gs[0].Race {
+					T = offsets[p.Next]
+				} else {
+					T = offsets[p.Next+1]
+				}
+			}
+			dumps = append(dumps, dumpInfo{rr, T})
+		}
+		if !okStream {
+			continue
+		}
+		n := len(data)
+		try := func(desc string, chunks []int) {
+			seq++
+			if !r.MineIdx(seq) || r.Expired() {
+				return
+			}
+			key := fmt.Sprintf("process stream%d %s", si, desc)
+			v := r.Check(func() *h.Viol {
+				var out bytes.Buffer
+				cat, msg := "", ""
+				hr := &hookReader{chunkReader: chunkReader{data: data, chunks: append([]int{}, chunks...)}}
+				hr.onRead = func(D int) {
+					if cat != "" {
+						return
+					}
+					got := out.Bytes()
+					c := 0
+					for c < len(lines) && offsets[c+1] <= D {
+						c++
+					}
+					exemptFrom := c - 1
+					if c >= 2 && lines[c-1].Kind == rline.WARN && lines[c-2].Kind == rline.SEP {
+						exemptFrom = c - 2
+					}
+					pos := 0
+					for i := 0; i < c && i < exemptFrom; i++ {
+						if !isPass[i] {
+							continue
+						}
+						k := bytes.Index(got[pos:], lines[i].Bytes())
+						if k < 0 {
+							cat, msg = "complete-line-withheld", fmt.Sprintf("source blocks after %d bytes: pass-through line %d %q is complete (and not the last complete line) but has not been written; output so far %q", D, i, trunc(lines[i].Text), trunc(string(got)))
+							return
+						}
+						pos += k + len(lines[i].Bytes())
+					}
+					pos = 0
+					for di, d := range dumps {
+						if D < d.T {
+							break
+						}
+						k := bytes.Index(got[pos:], []byte(d.render))
+						if k < 0 {
+							cat, msg = "rendering-withheld", fmt.Sprintf("source blocks after %d bytes: dump %d ended at offset %d but its rendering has not been written; output so far %q", D, di, d.T, trunc(string(got)))
+							return
+						}
+						pos += k + len(d.render)
+					}
+				}
+				var pn string
+				func() {
+					defer func() {
+						if e := recover(); e != nil {
+							pn = fmt.Sprint(e)
+						}
+					}()
+					_ = process(hr, &out, &Palette{}, stack.AnyPointer, basePath, false, false, "", nil, nil)
+				}()
+				if pn != "" {
+					cat, msg = "panic", pn
+				}
+				if cat == "" {
+					return nil
+				}
+				vv := &h.Viol{Fingerprint: "C11/process/" + cat, Summary: fmt.Sprintf("process() on stream %q, delivery %s: %s", names[si], desc, msg), Key: key, Kind: "process-monitor"}
+				vv.SetInput(data)
+				return vv
+			})
+			o := "ok"
+			if v != nil {
+				o = v.Fingerprint
+			}
+			r.Record(key, true, o+fmt.Sprint(si))
+		}
+		ones := make([]int, n)
+		for i := range ones {
+			ones[i] = 1
+		}
+		try("byte-at-a-time", ones)
+		var perLine []int
+		for i := range lines {
+			perLine = append(perLine, offsets[i+1]-offsets[i])
+		}
+		try("line-at-a-time", perLine)
+		try("all-at-once", nil)
+		// every split at a line boundary (and one byte before/after), singly and in pairs
+		var cand []int
+		for _, o := range offsets[1 : len(offsets)-1] {
+			cand = append(cand, o-1, o, o+1)
+		}
+		for i, a := range cand {
+			try(fmt.Sprintf("split=%d", a), []int{a})
+			for _, b := range cand[i+1:] {
+				if b > a {
+					try(fmt.Sprintf("splits=%d,%d", a, b), []int{a, b - a})
+				}
+			}
+		}
+		if r.Thorough() {
+			for a := 1; a < n; a++ {
+				try(fmt.Sprintf("split=%d", a), []int{a})
+			}
+		}
+	}
+	r.Sample(map[string]any{"part": "process() monitored at every Read", "streams": names})
+}
